@@ -473,7 +473,14 @@ class StmtMixin:
             if f == '$out':
                 head.out = self.fresh('OUT', SeqS)
             else:
-                head.heap[f] = self.fresh('H!' + f, head.H(f).sort())
+                oldarr = head.H(f)
+                head.heap[f] = self.fresh('H!' + f, oldarr.sort())
+                if spec.fresh_only:
+                    fr = z3.Int('lf!r')
+                    head.assume(qforall([fr], z3.Implies(fr < st.ghost['$ap0'],
+                                                         z3.Select(head.heap[f], fr) == z3.Select(oldarr, fr))))
+        if spec.havoc and not spec.fresh_only and any(f != '$out' for f in spec.havoc):
+            self.invalidate(head)
         ap_entry = head.ap
         head.ap = self.fresh('ap', Int)
         head.assume(head.ap >= ap_entry)
@@ -491,7 +498,12 @@ class StmtMixin:
             if o is not None:
                 yield s1, o
                 continue
+            nwrites = len(s1.ghost.get('$writes', []))
             for s2, o2 in self.run(n.body, s1):
+                if spec.fresh_only:
+                    for (wf_, wr_, _pc) in s2.ghost.get('$writes', [])[nwrites:]:
+                        if wf_ in spec.havoc and not self._is_alloc_term(z3.simplify(wr_)):
+                            raise Unsupported('loop #%d of %s writes a pre-existing object (declared fresh_only)' % (ordinal, st.fn))
                 if o2 is None or o2[0] == 'continue':
                     for f, t in s2.heap.items():
                         if f not in spec.havoc and f in head_heap and not z3.eq(head_heap[f], t):
